@@ -2,6 +2,9 @@ package rules
 
 import (
 	"fmt"
+	"go/constant"
+	"go/token"
+	"go/types"
 	"sort"
 
 	"gojaverif/core"
@@ -162,6 +165,100 @@ func runMarkerTest(p *core.Prog) *core.Result {
 	}
 	if n == 0 {
 		return res.Failf("unresolved anchor: no comparison of tryFrame.catchPos with tryPanicMarker found (handleThrow expected)")
+	}
+	return res
+}
+
+// R-GENSTATE: throw(e) / return(v) delivered to a generator that has not started complete it
+// (GeneratorResumeAbrupt step 2: "if state is suspendedStart, set state to completed"). In
+// generatorObject.throw and _return every exit reached on the `state == genStateSuspendedStart`
+// edge passes a store of genStateCompleted first; otherwise a later next() starts the body.
+var GenState = &core.Rule{Name: "R-GENSTATE", Run: runGenState,
+	Doc: "must-pass-through in (*generatorObject).throw/_return: from the true edge of every state == genStateSuspendedStart test, each path to a return or panic passes `g.state = genStateCompleted`"}
+
+func runGenState(p *core.Prog) *core.Result {
+	res := core.NewResult("R-GENSTATE", 2)
+	constVal := func(name string) (int64, error) {
+		c, ok := p.Goja.Types.Scope().Lookup(name).(*types.Const)
+		if !ok {
+			return 0, fmt.Errorf("unresolved anchor: constant %s", name)
+		}
+		v, _ := constant.Int64Val(c.Val())
+		return v, nil
+	}
+	start, err := constVal("genStateSuspendedStart")
+	if err != nil {
+		return res.Fail(err)
+	}
+	completed, err := constVal("genStateCompleted")
+	if err != nil {
+		return res.Fail(err)
+	}
+	fState, err := p.Field(core.GojaPath, "generatorObject", "state")
+	if err != nil {
+		return res.Fail(err)
+	}
+	for _, name := range []string{"throw", "_return"} {
+		fn, err := p.GojaMethod("generatorObject", name)
+		if err != nil {
+			return res.Fail(err)
+		}
+		n := 0
+		core.AllInstrs(fn, func(in ssa.Instruction) {
+			b, ok := in.(*ssa.BinOp)
+			if !ok || b.Op != token.EQL {
+				return
+			}
+			ld, ok := b.X.(*ssa.UnOp)
+			if !ok {
+				return
+			}
+			fa, ok := ld.X.(*ssa.FieldAddr)
+			if !ok || core.FieldOf(fa) != fState {
+				return
+			}
+			if c, ok := core.IntConst(b.Y); !ok || c != start {
+				return
+			}
+			for _, e := range core.CondEdges(b) {
+				n++
+				key := fmt.Sprintf("(*generatorObject).%s:suspendedStart completes the generator#%d", name, n)
+				seen := map[*ssa.BasicBlock]bool{}
+				var bad ssa.Instruction
+				var walk func(blk *ssa.BasicBlock)
+				walk = func(blk *ssa.BasicBlock) {
+					if seen[blk] || bad != nil {
+						return
+					}
+					seen[blk] = true
+					for _, in2 := range blk.Instrs {
+						switch x := in2.(type) {
+						case *ssa.Store:
+							if sfa, ok := x.Addr.(*ssa.FieldAddr); ok && core.FieldOf(sfa) == fState {
+								if c, ok := core.IntConst(x.Val); ok && c == completed {
+									return
+								}
+							}
+						case *ssa.Return, *ssa.Panic:
+							bad = in2
+							return
+						}
+					}
+					for _, s := range blk.Succs {
+						walk(s)
+					}
+				}
+				walk(e.True)
+				if bad != nil {
+					res.Bad(key, p.Pos(bad.Pos()), "an abrupt completion delivered to a generator that has not started leaves it in suspendedStart: the exception/return value is reported, but a later next(), for-of or spread still runs the body from the beginning")
+				} else {
+					res.OK(key, p.Pos(b.Pos()), "state = genStateCompleted on every path before leaving")
+				}
+			}
+		})
+		if n == 0 {
+			res.Bad("(*generatorObject)."+name+":suspendedStart handled", p.Pos(fn.Pos()), "no test for genStateSuspendedStart: an abrupt completion of a fresh generator is not turned into 'completed'")
+		}
 	}
 	return res
 }
